@@ -266,6 +266,29 @@ func (g *gen) recipe(kind string, depth int, small bool) Recipe {
 	return rc
 }
 
+// recipeWeight estimates the number of points of the object a recipe builds.
+func recipeWeight(rc *Recipe) int {
+	if rc.Via == "share" {
+		return 64
+	}
+	w := 0
+	switch rc.Kind {
+	case "Point", "SimplePoint", "Rect":
+		w = 2
+	case "Circle":
+		w = 66
+	case "MultiPoint", "LineString", "Polygon":
+		w = rc.Shape.N + 8*rc.Shape.Holes
+	}
+	for i := range rc.Children {
+		w += recipeWeight(&rc.Children[i])
+	}
+	if w < 1 {
+		w = 1
+	}
+	return w
+}
+
 func shiftRecipe(rc *Recipe, dx, dy float64) {
 	rc.Shape.Cx += dx
 	rc.Shape.Cy += dy
@@ -591,8 +614,20 @@ func (g *gen) marathon(s *Spec, hot []int, fs faultSet, tier string) {
 	nt := r.Pick(2, 2, 3)
 	h := hot[0]
 	lo, hi := 300, 1500
+	units := 1_500_000 // calls x points budget of one marathon caller
 	if tier == "thorough" {
 		lo, hi = 800, 6000
+		units = 6_000_000
+	}
+	// a call on a big object costs in proportion to its size: fewer calls then
+	if w := recipeWeight(&s.Pool[h]); w > 0 && units/w < hi {
+		hi = units / w
+		if hi < 60 {
+			hi = 60
+		}
+		if lo > hi {
+			lo = hi
+		}
 	}
 	// a small repertoire repeated many times, so that per-object and per-method
 	// counters really reach high values
